@@ -401,6 +401,16 @@ where
     let mx = if small { 3 } else { 5 };
     let mut shape: Vec<usize> = (0..nd).map(|_| 1 + rng.below(mx)).collect();
     shape[axis] = 1 + rng.below(if small { 5 } else { 12 });
+    // now and then long lanes (18..60) consisting of a few values, a LONG RUN of missing values, and a few values
+    let runs = !small && rng.chance(0.06);
+    if runs {
+        shape[axis] = 18 + rng.below(43);
+        for a in 0..nd {
+            if a != axis {
+                shape[a] = 1 + rng.below(2);
+            }
+        }
+    }
     // now and then an array without elements whose reduced axis is NOT empty (no lanes at all)
     if nd >= 2 && !small && rng.chance(0.03) {
         let other = (axis + 1 + rng.below(nd - 1)) % nd;
@@ -409,7 +419,16 @@ where
     let total: usize = shape.iter().product();
     let pmiss = *rng.pick(&[0.0, 0.15, 0.4, 0.8, 1.0]);
     let mut data: Vec<T> = (0..total).map(|i| if rng.chance(pmiss) { T::missing(i) } else { T::val(i) }).collect();
-    match rng.below(8) {
+    if runs {
+        for l in lanes_of(&shape, axis) {
+            let (pre, suf) = (rng.below(4), rng.below(4));
+            let n = l.len();
+            for (j, &i) in l.iter().enumerate() {
+                data[i] = if j < pre || j + suf >= n { T::val(i) } else { T::missing(i) };
+            }
+        }
+    }
+    match if runs { 7 } else { rng.below(8) } {
         0 => {
             // first-only / last-only missing in every lane
             for l in lanes_of(&shape, axis) {
@@ -1578,7 +1597,19 @@ fn main() {
             r.section("long_masks", r.args.n(if san { 1_000 } else { 6_000 }, 200_000), |k, rng, acc| {
                 let len = 11 + rng.below(60);
                 let p = *rng.pick(&[0.05, 0.3, 0.5, 0.9]);
-                let mask: Vec<bool> = (0..len).map(|_| rng.chance(p)).collect();
+                let mut mask: Vec<bool> = (0..len).map(|_| rng.chance(p)).collect();
+                if rng.chance(0.3) {
+                    // a few values, a long run of one kind, a few values
+                    let (pre, suf) = (rng.below(4), rng.below(4));
+                    let inner = rng.chance(0.7);
+                    for j in 0..len {
+                        if !(j < pre || j + suf >= len) {
+                            mask[j] = inner;
+                        } else {
+                            mask[j] = !inner;
+                        }
+                    }
+                }
                 let lay = lay1(*rng.pick(&[1isize, 2, 3, -1, -2, -3, 5, -7]), rng.below(4), rng.below(4));
                 by_miss_type!(k as usize, c04_mask, acc, &mask, &lay);
                 acc.nontrivial(h64(&(k % 14, &mask, &lay)));
